@@ -118,8 +118,7 @@ pub fn c05(tier: Tier) -> i32 {
     if ds.len() != C05_DETS.len() {
         run.machinery("not all 11 detectors are addressable by their documented name".into());
     }
-    let c = corpus::build(tier);
-    let sw = refdet::sweep(&c, &ds, Mode::Semantic);
+    let (sw, _sum, sigma_samples) = refdet::sweep_stream(tier, &ds, Mode::Semantic, &|p| p.tag.contains("atom."));
     require_must(&mut run, &sw, C05_DETS, "Σ");
     // boundary family: multiplications / divisions by 2^k and its neighbours, k = 0..256
     let mut items = Vec::new();
@@ -146,7 +145,7 @@ pub fn c05(tier: Tier) -> i32 {
     let sw2 = refdet::sweep_texts(&items, &shift, Mode::Semantic);
     require_must(&mut run, &sw2, &["shift_math"], "pow2-boundary");
     absorb(&mut run, sw2, "pow2-boundary");
-    let samples = json!(c.progs.iter().filter(|p| p.tag.contains("atom.")).step_by(3000).take(4).map(|p| json!({"tag": p.tag, "source": crate::synth::render_sp(&p.toks)})).collect::<Vec<_>>());
+    let samples = json!(sigma_samples);
     absorb(&mut run, sw, "Σ");
     finish(
         run,
@@ -545,8 +544,7 @@ pub fn c07(tier: Tier) -> i32 {
         run.machinery("not all 4 detectors are addressable by their documented name".into());
     }
     // ---- Σ
-    let c = corpus::build(tier);
-    let sw = refdet::sweep(&c, &ds, Mode::Semantic);
+    let (sw, _sum, _samples) = refdet::sweep_stream(tier, &ds, Mode::Semantic, &|_| true);
     require_must(&mut run, &sw, &["unsafe_erc20_operation", "divide_before_multiply", "floating_pragma"], "Σ");
     absorb(&mut run, sw, "Σ");
 
